@@ -368,16 +368,22 @@ class Translator:
             self.opaque[full] = (san(on), ins, outs)
             opaque_names.append(san(on))
             ni = sum(len(names_for('x', parse_shape(ps)[1])) for ps in ins)
-            no = len(names_for('x', parse_shape(outs)[1]))
+            # (C10) an opaque function may return a tuple of arrays: outs = 'TUP(V3,M33)'
+            no = sum(len(names_for('x', parse_shape(o)[1])) for o in (split_top(outs[4:-1]) if outs.startswith('TUP(') else [outs]))
             oracle_txt.append('(%s : %s)' % (san(on), ' -> '.join(['T'] * ni + ['(' + ' * '.join(['T'] * no) + ')'])))
         # opts['static'] = {param name: int}: python-int parameters fixed at translation time (index arithmetic)
         static = opts.get('static', {})
         for on, ni, no in opts.get('oracles', []):
             self.env[on] = ('ORACLE', san(on), ni, no)
             oracle_txt.append('(%s : %s)' % (san(on), ' -> '.join(['T'] * ni + ['(' + ' * '.join(['T'] * no) + ')'])))
+        self.derivs = dict(opts.get('derivs', {}))    # (C10) {oracle name: name of the oracle standing for its derivative (jax.jacfwd/grad)}
         for pn, ps in allp:
             if pn in static:
                 self.env[pn] = ('STATIC', int(static[pn]))
+                continue
+            if ps == 'FN':                            # (C10) function-valued parameter, declared in opts['oracles'] under the same name
+                if not (isinstance(self.env.get(pn), tuple) and self.env[pn][0] == 'ORACLE'):
+                    raise TranslateError('%s: function-valued parameter %s is not declared in oracles' % (qual, pn))
                 continue
             v, names = self.bind_param(pn, ps)
             self.env[pn] = v
@@ -402,7 +408,7 @@ class Translator:
             raise TranslateError('%s: no return' % qual)
         flat, struct = self.flatten_ret(ret)
         cname = opts.get('coq_name') or self.coq_name(mod.name, name)
-        info = FuncInfo(mod, cname, [(pn, ps) for pn, ps in allp if pn not in static], struct)
+        info = FuncInfo(mod, cname, [(pn, ps) for pn, ps in allp if pn not in static and ps != 'FN'], struct)
         info.opaque = opaque_names
         mod.funcs[name] = info
         rtypes = ' * '.join('bool' if k == 'B' else 'T' for k, _ in flat)
@@ -861,6 +867,25 @@ class Translator:
 
     def e_Call(self, e):
         base, name = self.callee_name(e.func)
+        # (C10) jax.jacfwd(f) / jax.grad(f) / jax.jacrev(f) of a scalar -> scalar oracle f: the oracle declared as its derivative
+        if base == 'jax' and name in ('jacfwd', 'grad', 'jacrev') and len(e.args) == 1 and not e.keywords and isinstance(e.args[0], ast.Name) \
+                and isinstance(self.env.get(e.args[0].id), tuple) and self.env[e.args[0].id][0] == 'ORACLE':
+            dn = getattr(self, 'derivs', {}).get(e.args[0].id)
+            if dn is None or not (isinstance(self.env.get(dn), tuple) and self.env[dn][0] == 'ORACLE') \
+                    or self.env[e.args[0].id][2:] != (1, 1) or self.env[dn][2:] != (1, 1):
+                raise TranslateError('derivative of %s: no scalar derivative oracle declared (opts derivs) at line %d' % (e.args[0].id, e.lineno))
+            return self.env[dn]
+        # (C10) jax.vmap(f)(v): f applied to each element of the vector v
+        if isinstance(e.func, ast.Call) and self.callee_name(e.func.func) == ('jax', 'vmap') and len(e.func.args) == 1 \
+                and not e.func.keywords and len(e.args) == 1 and not e.keywords:
+            f = self.as_callable(e.func.args[0])
+            v = self.expr(e.args[0])
+            if not isinstance(v, Val) or len(v.shape) != 1 or v.kind != 'S':
+                raise TranslateError('jax.vmap only over a vector at line %d' % e.lineno)
+            outs = [f([v.index(i)]) for i in range(v.shape[0])]
+            if any(not isinstance(o, Val) or o.shape != () for o in outs):
+                raise TranslateError('jax.vmap of a non-scalar function at line %d' % e.lineno)
+            return Val('S', (v.shape[0],), [o.data for o in outs])
         if e.keywords:
             kw = {k.arg: k.value for k in e.keywords}
         else:
@@ -897,6 +922,22 @@ class Translator:
             flat = []
             for ps, a in zip(ins, e.args):
                 flat += self.flat_arg(ps, self.expr(a))
+            if outs.startswith('TUP('):               # (C10) tuple of arrays
+                parts = [parse_shape(o) for o in split_top(outs[4:-1])]
+                sizes = []
+                for _, sh in parts:
+                    c = 1
+                    for d in sh:
+                        c *= d
+                    sizes.append(c)
+                base_ = self.fresh('q')
+                names = ['%s_%d' % (base_, i) for i in range(sum(sizes))]
+                self.pre.append("let '(%s) := (%s %s) in" % (', '.join(names), on, ' '.join(flat)))
+                items, k0 = [], 0
+                for (kd, sh), c in zip(parts, sizes):
+                    items.append(Val.from_flat(kd, sh, names[k0:k0 + c]))
+                    k0 += c
+                return TupleVal(items)
             okind, oshape = parse_shape(outs)
             cnt = 1
             for d in oshape:
@@ -1037,6 +1078,15 @@ class Translator:
         if base is None and name in self.env and isinstance(self.env[name], tuple) and self.env[name][0] in ('DEF', 'LAMBDA'):
             fn = self.env[name]
             return lambda vals: self.apply_closure(fn, vals)
+        if base is None and name in self.env and isinstance(self.env[name], tuple) and self.env[name][0] == 'ORACLE' \
+                and self.env[name][2:] == (1, 1):      # (C10) scalar oracle as a callable
+            on = self.env[name][1]
+
+            def call_oracle(vals):
+                if len(vals) != 1 or not isinstance(vals[0], Val) or vals[0].shape != () or vals[0].kind != 'S':
+                    raise TranslateError('oracle %s must be applied to one scalar' % name)
+                return scalar('(%s %s)' % (on, vals[0].data))
+            return call_oracle
         tm = self.mod if base is None else self.modules.get(self.mod.aliases.get(base, base))
         if tm is not None and name in tm.funcs:
             info = tm.funcs[name]
